@@ -770,6 +770,8 @@ type devCfg struct {
 	maxStates  int
 	reorder    bool
 	crashInside bool // deviation: crash inside the default next step, before each of its effects
+	lagNode    int  // votes reach this node last in the default schedule (-1: none); proposals and parts are in time
+	pcFirst    bool // default scheduler delivers precommits before other messages
 	preAllowNode map[int]allowSet // Byzantine strategy, per receiving node (overrides preAllow for that node)
 	preAllow   allowSet  // Byzantine strategy: menu entries released to every node from the start
 	prefix     []dAction // base schedule applied before the search starts (cost 0)
@@ -951,15 +953,38 @@ func (x *explorer) searchDev(cfg devCfg) *devResult {
 			}
 		}
 		nm := int32(len(x.mt.msgs))
-		for m := int32(0); m < nm; m++ {
-			for _, i := range x.correct {
-				st := x.states[i][s.L[i]]
-				if st.terminal || !x.deliverable(s, i, m, menuIdx) {
-					continue
-				}
-				r := x.step(i, st.id, m)
-				if r.next != st.id || len(r.outs) > 0 {
-					return dAction{kind: "ev", node: i, ev: m}, true
+		// node groups: everybody but the lagging node first, the lagging node last
+		// (the lagging node still gets proposals and block parts in time: only votes reach it late)
+		groups := [][]int{nil, nil}
+		for _, i := range x.correct {
+			groups[0] = append(groups[0], i)
+			if i == cfg.lagNode {
+				groups[1] = append(groups[1], i)
+			}
+		}
+		for gi, grp := range groups {
+			passes := 1
+			if cfg.pcFirst {
+				passes = 2
+			}
+			for pass := 0; pass < passes; pass++ {
+				for m := int32(0); m < nm; m++ {
+					if cfg.pcFirst && (pass == 0) != (x.mt.msgs[m].Kind == "precommit") {
+						continue
+					}
+					for _, i := range grp {
+						st := x.states[i][s.L[i]]
+						if st.terminal || !x.deliverable(s, i, m, menuIdx) {
+							continue
+						}
+						if gi == 0 && i == cfg.lagNode && (x.mt.msgs[m].Kind == "prevote" || x.mt.msgs[m].Kind == "precommit") {
+							continue
+						}
+						r := x.step(i, st.id, m)
+						if r.next != st.id || len(r.outs) > 0 {
+							return dAction{kind: "ev", node: i, ev: m}, true
+						}
+					}
 				}
 			}
 		}
